@@ -85,6 +85,19 @@ impl CompileState<'_> {
             fields.push((field_name.clone(), e));
         }
 
+        // Every field of the definition must be given, explicitly or by a
+        // composition source (already resolved into `s.fields`).
+        if let Some(missing) = struct_def
+            .iter()
+            .find(|def| !fields.iter().any(|(name, _)| name.inner == def.identifier.inner))
+        {
+            let note = format!(
+                "field `{}` of `Struct {}` is missing",
+                missing.identifier.inner, s.identifier
+            );
+            return Err(self.err(BadArgument(note, s.span())));
+        }
+
         Ok(thir::NamedStruct {
             identifier: s.identifier.clone(),
             fields,
